@@ -77,7 +77,13 @@ func c08UnaryOracle(s sm.Step, zBefore, x, zAfter h.Snap) *h.Fail {
 	case "setmantexp":
 		v := x.Val()
 		if v.Form == model.Finite {
-			v.Exp += s.Exp
+			off := s.Exp // clamp: the model's exponent is an int64 as well
+			if off > 1<<40 {
+				off = 1 << 40
+			} else if off < -1<<40 {
+				off = -1 << 40
+			}
+			v.Exp += off
 			if x.Prec == 0 {
 				return nil
 			}
